@@ -38,7 +38,10 @@ type Meta struct {
 func NewSqliteDb(dbFile string, rootID string) (*DbSqlite, error) {
 	ret := &DbSqlite{}
 
-	pragmas := "_pragma=foreign_keys(1)&_pragma=journal_mode(WAL)&_pragma=synchronous(NORMAL)&_pragma=busy_timeout(8000)&_pragma=journal_size_limit(100000000)"
+	// busy_timeout must come first: the pragmas run in this order on every new
+	// connection of the pool, and journal_mode(WAL) fails with SQLITE_BUSY at
+	// once when another connection is writing and no timeout is set yet
+	pragmas := "_pragma=busy_timeout(8000)&_pragma=foreign_keys(1)&_pragma=journal_mode(WAL)&_pragma=synchronous(NORMAL)&_pragma=journal_size_limit(100000000)"
 
 	dbFileOptions := fmt.Sprintf("%s?%s", dbFile, pragmas)
 
